@@ -14,8 +14,8 @@ REPO = "/repo"
 M = []
 
 
-def mut(id, file, old, new, props, silent=False, note=""):
-    M.append({"id": id, "file": file, "old": old, "new": new, "props": props, "silent": silent, "note": note})
+def mut(id, file, old, new, props, silent=False, note="", extra=()):
+    M.append({"id": id, "file": file, "old": old, "new": new, "props": props, "silent": silent, "note": note, "extra": list(extra)})
 
 
 REL = "indextree/src/relations.rs"
@@ -63,7 +63,10 @@ mut("tree-arena-twice", MAC, "let mut __arena: &mut ::indextree::Arena<_> = #are
 mut("serde-skip-last-free", ARN, "    last_free_slot: Option<usize>,\n}", "    #[cfg_attr(feature = \"deser\", serde(skip))]\n    last_free_slot: Option<usize>,\n}", ["C16"])
 mut("std-fast-path-count", ARN, "    pub fn count(&self) -> usize {\n        self.nodes.len()", "    pub fn count(&self) -> usize {\n        #[cfg(feature = \"std\")]\n        {\n            if self.nodes.is_empty() {\n                return 0;\n            }\n        }\n        self.nodes.len()", ["C17"])
 mut("par-iter-skip-first", ARN, "        self.nodes.par_iter()", "        self.nodes[1..].par_iter()", ["C17"])
-mut("cell-counter", ARN, "    last_free_slot: Option<usize>,\n}", "    last_free_slot: Option<usize>,\n    hits: core::cell::Cell<usize>,\n}", ["C18"], note="does not compile without further edits; control for the type-closure rule only")
+mut("cell-counter", ARN, "    last_free_slot: Option<usize>,\n}", "    last_free_slot: Option<usize>,\n    hits: core::cell::Cell<usize>,\n}", ["C18", "C13"],
+    extra=[(ARN, "            last_free_slot: None,\n        }", "            last_free_slot: None,\n            hits: core::cell::Cell::new(0),\n        }"),
+           (ARN, "        self.nodes.get(id.index0())\n    }", "        self.hits.set(self.hits.get() + 1);\n        self.nodes.get(id.index0())\n    }")],
+    note="interior mutability in the arena (a hit counter updated through &self)")
 mut("unsafe-index", "indextree/src/lib.rs", "#![forbid(unsafe_code)]", "#![deny(unsafe_code)]", ["C18"])
 
 
@@ -82,6 +85,11 @@ def run_one(m, args):
             else:
                 shutil.copy(s, os.path.join(d, item))
         open(os.path.join(d, m["file"]), "w").write(text.replace(m["old"], m["new"], 1))
+        for (xf, xo, xn) in m.get("extra", []):
+            xt = open(os.path.join(d, xf)).read()
+            if xo not in xt:
+                return {"id": m["id"], "status": "skipped (anchor text of an extra edit not found)"}
+            open(os.path.join(d, xf), "w").write(xt.replace(xo, xn))
         res = {"id": m["id"], "props": {}, "status": "ran"}
         if args.validate:
             r = subprocess.run(["cargo", "test", "--workspace", "--offline", "-q"], cwd=d, stdout=subprocess.PIPE, stderr=subprocess.STDOUT, text=True,
